@@ -682,19 +682,30 @@ impl<S: USet> Eng<S> {
         self.post_check();
     }
     pub fn op_nexts(&mut self, i: usize, which: It, pos: usize) {
-        let (v, fused) = detach(alloc::under_test(|| self.slots[i].as_ref().unwrap().nexts(which, pos)));
+        let (v, fused, prefix) = detach(alloc::under_test(|| self.slots[i].as_ref().unwrap().nexts(which, pos)));
         let mut l = format!("nexts {} {} {}", i, pos, v.len());
         for x in &v {
             write!(l, " {}", S::enc(*x)).unwrap();
         }
         self.emit(&l);
         if !fused {
-            self.fail("C04,C07", format!("{:?} iterator: exhausted iterator returned Some, or a cloned iterator diverged", which));
+            self.fail("C04,C07", format!("{:?} iterator: exhausted iterator returned Some, or a cloned iterator does not yield the same remaining items", which));
         }
         let all = self.slots[i].as_ref().unwrap().items();
-        let want: Vec<u64> = all.iter().skip(pos).cloned().collect();
-        if v != want {
-            self.fail("C04,C07", format!("{:?} iterator at position {} yields {:?}.., plain iteration continues {:?}..", which, pos, &v[..v.len().min(4)], &want[..want.len().min(4)]));
+        // every member exactly once over the whole run of this iterator (C04); a consuming iterator works on a
+        // clone, whose order the property does not fix: compared as multisets.  Only the borrowed iterator over
+        // the unchanged set itself must repeat the order of a second `iter()`.
+        let mut seen: Vec<u64> = prefix.iter().chain(v.iter()).cloned().collect();
+        let mut want: Vec<u64> = all.clone();
+        seen.sort();
+        want.sort();
+        if seen != want {
+            self.fail("C04,C07", format!("{:?} iterator advanced {} times and then drained yields {} items {:?}.., the set has {} members {:?}..", which, pos, seen.len(), &seen[..seen.len().min(4)], want.len(), &want[..want.len().min(4)]));
+        } else if which == It::Iter {
+            let rest: Vec<u64> = all.iter().skip(pos).cloned().collect();
+            if v != rest {
+                self.fail("C04", format!("iter() at position {} yields {:?}.., a second iter() of the unchanged set continues {:?}..", pos, &v[..v.len().min(4)], &rest[..rest.len().min(4)]));
+            }
         }
         self.bump(&format!("nexts:{:?}:{}", which, self.tag(i)));
         self.post_check();
@@ -703,7 +714,12 @@ impl<S: USet> Eng<S> {
         let before = self.repr_full(i);
         let r = catch_unwind(AssertUnwindSafe(|| alloc::under_test(|| self.slots[i].as_ref().unwrap().shortcut(which, pos, kind))));
         let all = self.slots[i].as_ref().unwrap().items();
-        let rest: Vec<u64> = all.iter().skip(pos).cloned().collect();
+        // a consuming iterator is compared with plain iteration of (a clone of) the same iterator
+        let (r, plain) = match r.map(detach) {
+            Ok((g, p)) => (Ok(g), p),
+            Err(x) => (Err(x), None),
+        };
+        let rest: Vec<u64> = plain.unwrap_or_else(|| all.iter().skip(pos).cloned().collect());
         let want = match kind {
             "min" => S::pick(&rest, false),
             "max" => S::pick(&rest, true),
